@@ -489,9 +489,13 @@ TwinChecks(cfg, checks) ==
   ELSE { <<"C13", "fast-path:" \o t[2], t[3]>> : t \in {u \in checks : u[1] \in {"C01", "C11"}} }
 
 \* All L1 checks of one logged call.  pre / post: [A, B, blocks].
+\* the driver logs only a prefix of the elements of a very long container ("etrunc"): element-wise checks do not apply
+Truncated(s0) == \E c \in {"A", "B"} : s0[c].p /\ "etrunc" \in DOMAIN s0[c]
+
 OpChecksBase(cfg, pre, post, ln) ==
   OutcomeChecks(cfg, ln) \cup
   (IF Fatal(ln) THEN {}
+   ELSE IF (Truncated(pre) \/ Truncated(post)) /\ ln.op # "push_n" THEN InvChecks(cfg, post, ln.can)
    ELSE (IF IsCtor(ln.op) THEN CtorChecks(cfg, pre, post, ln)
          ELSE IF IsCtorFrom(ln.op) THEN CtorFromChecks(cfg, pre, post, ln)
          ELSE IF IsBinary(ln.op) THEN BinaryChecks(cfg, pre, post, ln)
